@@ -59,6 +59,10 @@ func (fr *Frame) clone() *Frame {
 	return &Frame{fn: fr.fn, regs: r, bind: fr.bind, forks: f, harn: fr.harn}
 }
 
+type annotated struct{ msg string }
+
+func (a annotated) String() string { return a.msg }
+
 type okind int
 
 const (
@@ -484,6 +488,9 @@ func (e *Engine) isRepoPkg(path string) bool {
 // loads and stores
 
 func (e *Engine) load(s *State, p *Ptr, t types.Type, pos string, fr *Frame) Value {
+	if p.View > 1 {
+		return e.loadView(s, p, t, pos, fr)
+	}
 	n := e.cellCount(t)
 	agg := e.isAggregate(t)
 	if len(p.Alts) == 0 {
@@ -537,6 +544,10 @@ func (e *Engine) blobByte(b *Blob, idx *Term) *Term {
 }
 
 func (e *Engine) storeVal(s *State, p *Ptr, v Value, t types.Type, pos string, fr *Frame) {
+	if p.View > 1 {
+		e.storeView(s, p, v, t, pos, fr)
+		return
+	}
 	n := e.cellCount(t)
 	var vals []Value
 	if a, ok := v.(*Agg); ok {
@@ -582,6 +593,17 @@ func (e *Engine) storeVal(s *State, p *Ptr, v Value, t types.Type, pos string, f
 // ---------------------------------------------------------------------------
 
 func (e *Engine) exec(fr *Frame, s *State, in ssa.Instruction) {
+	defer func() {
+		if r := recover(); r != nil {
+			if _, ok := r.(*Unsupported); ok {
+				panic(r)
+			}
+			if a, ok := r.(annotated); ok {
+				panic(a)
+			}
+			panic(annotated{fmt.Sprintf("%v [at %s: %s]", r, e.pos(in), in.String())})
+		}
+	}()
 	switch i := in.(type) {
 	case *ssa.DebugRef:
 	case *ssa.Alloc:
@@ -995,6 +1017,20 @@ func (e *Engine) convert(fr *Frame, s *State, x Value, from, to types.Type, pos 
 			}
 		}
 		if fb.Kind() == types.UnsafePointer {
+			p := x.(*Ptr)
+			if tp, ok := tu.(*types.Pointer); ok && len(p.Alts) > 0 && p.Alts[0].Obj != nil && p.Alts[0].Obj.Typ != nil {
+				tw := e.leafIntWidth(tp.Elem())
+				ow := e.leafIntWidth(p.Alts[0].Obj.Typ)
+				if tw == 0 || ow == 0 {
+					panic(unsupported("unsafe pointer conversion to %s at %s", to, pos))
+				}
+				if tw != ow {
+					if ow != 8 || tw%8 != 0 {
+						panic(unsupported("unsafe reinterpretation %d->%d bits at %s", ow, tw, pos))
+					}
+					return &Ptr{Alts: p.Alts, View: tw / 8}
+				}
+			}
 			return x
 		}
 	}
@@ -1276,4 +1312,93 @@ func (e *Engine) stubType(name string) types.Type {
 	t := types.NewNamed(tn, types.NewStruct(nil, nil), nil)
 	e.stubTypes[name] = t
 	return t
+}
+
+// loadView / storeView implement word access through an unsafe byte-array reinterpretation.
+func (e *Engine) loadView(s *State, p *Ptr, t types.Type, pos string, fr *Frame) Value {
+	n := e.cellCount(t)
+	raw := &Ptr{Alts: p.Alts}
+	out := make([]Value, n)
+	for k := 0; k < n; k++ {
+		var w *Term
+		for b := 0; b < p.View; b++ {
+			c := e.load(s, e.ptrAdd(raw, k*p.View+b), leafT, pos, fr)
+			if s.dead {
+				return nil
+			}
+			ct := c.(*Term)
+			if ct.S != BV(8) {
+				panic(unsupported("viewed load of non-byte cell at %s", pos))
+			}
+			if w == nil {
+				w = ct
+			} else {
+				w = e.st.Concat(ct, w)
+			}
+		}
+		out[k] = w
+	}
+	if e.isAggregate(t) {
+		return &Agg{Elems: out}
+	}
+	return out[0]
+}
+
+func (e *Engine) storeView(s *State, p *Ptr, v Value, t types.Type, pos string, fr *Frame) {
+	var vals []Value
+	if a, ok := v.(*Agg); ok {
+		vals = a.Elems
+	} else {
+		vals = []Value{v}
+	}
+	raw := &Ptr{Alts: p.Alts}
+	for k, x := range vals {
+		w := x.(*Term)
+		if w.S.W != 8*p.View {
+			panic(unsupported("viewed store width mismatch at %s", pos))
+		}
+		for b := 0; b < p.View; b++ {
+			e.storeVal(s, e.ptrAdd(raw, k*p.View+b), e.st.Extract(w, 8*b+7, 8*b), leafT, pos, fr)
+		}
+	}
+}
+
+// leafIntWidth returns the bit width of the integer leaf type of t (arrays of ints), or 0.
+func (e *Engine) leafIntWidth(t types.Type) int {
+	switch u := t.Underlying().(type) {
+	case *types.Array:
+		return e.leafIntWidth(u.Elem())
+	case *types.Basic:
+		if u.Info()&types.IsInteger != 0 {
+			w, _ := e.typeWidth(t)
+			return w
+		}
+	}
+	return 0
+}
+
+func (e *Engine) leafWidthAny(t types.Type) int {
+	switch u := t.Underlying().(type) {
+	case *types.Array:
+		return e.leafWidthAny(u.Elem())
+	case *types.Struct:
+		w := -1
+		for i := 0; i < u.NumFields(); i++ {
+			fw := e.leafWidthAny(u.Field(i).Type())
+			if w >= 0 && fw != w {
+				return 0
+			}
+			w = fw
+		}
+		if w < 0 {
+			return 0
+		}
+		return w
+	case *types.Basic:
+		if u.Info()&types.IsInteger != 0 {
+			w, _ := e.typeWidth(t)
+			return w
+		}
+	}
+	return 0
 }
